@@ -1,5 +1,10 @@
 """Per-property manifest claims (filled in as each rule set goes live)."""
-from .manifest_gen import claim
+CLAIMED = {}
+
+
+def claim(pid, technique, text, note, ref):
+    CLAIMED[pid] = (technique, text, note, ref)
+
 
 NOTE = ('Trusted: rustc nightly MIR construction/type resolution, the mirfacts fact model, the rule code, the spec/ tables '
         '(hand-transcribed from the OTP docs), API summaries of external crates (nom, bytes, tokio, flate2, dashmap). '
